@@ -228,9 +228,10 @@ theorem normL_append (S : Schema) : ∀ (l1 l2 : List DNode), normL S (l1 ++ l2)
 
 /-- Canonical sibling lists that contain the same instances (by key), pairwise equal up to `normNode`, are equal up
 to `normL`: the order is determined by the keys. -/
-theorem canon_ext (S : Schema) (hasym : ∀ k1 k2, kltK S k1 k2 = true → kltK S k2 k1 = false) :
+theorem canon_ext (S : Schema) (P : Key → Prop)
+    (hasym : ∀ k1 k2, P k1 → P k2 → kltK S k1 k2 = true → kltK S k2 k1 = false) :
     ∀ (l1 l2 : List DNode), canonB S l1 = true → canonB S l2 = true →
-    (∀ x ∈ l1, shapeOk S x = true) → (∀ y ∈ l2, shapeOk S y = true) →
+    (∀ x ∈ l1, shapeOk S x = true ∧ P (kkey S x)) → (∀ y ∈ l2, shapeOk S y = true ∧ P (kkey S y)) →
     (∀ x ∈ l1, ∃ y ∈ l2, kkey S x = kkey S y ∧ normNode S x = normNode S y) →
     (∀ y ∈ l2, ∃ x ∈ l1, kkey S x = kkey S y) →
     normL S l1 = normL S l2
@@ -244,8 +245,8 @@ theorem canon_ext (S : Schema) (hasym : ∀ k1 k2, kltK S k1 k2 = true → kltK 
   | a :: t1, b :: t2, hc1, hc2, hs1, hs2, h1, h2 => by
     have hc1' := (canonB_cons S a t1).1 hc1
     have hc2' := (canonB_cons S b t2).1 hc2
-    have hsa := hs1 a (by simp)
-    have hsb := hs2 b (by simp)
+    have hsa := (hs1 a (by simp)).1
+    have hsb := (hs2 b (by simp)).1
     -- the heads have the same key
     have hab : kkey S a = kkey S b := by
       obtain ⟨y, hy, hky, _⟩ := h1 a (by simp)
@@ -256,10 +257,10 @@ theorem canon_ext (S : Schema) (hasym : ∀ k1 k2, kltK S k1 k2 = true → kltK 
         · subst hx; exact hkx
         · exfalso
           have e1 : kltK S (kkey S b) (kkey S a) = true := by
-            rw [hky, ← klt_eq_kltK S b y hsb (hs2 y (by simp [hy]))]; exact hc2'.1 y hy
+            rw [hky, ← klt_eq_kltK S b y hsb (hs2 y (by simp [hy])).1]; exact hc2'.1 y hy
           have e2 : kltK S (kkey S a) (kkey S b) = true := by
-            rw [← hkx, ← klt_eq_kltK S a x hsa (hs1 x (by simp [hx]))]; exact hc1'.1 x hx
-          rw [hasym _ _ e1] at e2
+            rw [← hkx, ← klt_eq_kltK S a x hsa (hs1 x (by simp [hx])).1]; exact hc1'.1 x hx
+          rw [hasym _ _ (hs2 b (by simp)).2 (hs1 a (by simp)).2 e1] at e2
           exact absurd e2 (by decide)
     -- and are equal up to norm
     have hnab : normNode S a = normNode S b := by
@@ -267,15 +268,15 @@ theorem canon_ext (S : Schema) (hasym : ∀ k1 k2, kltK S k1 k2 = true → kltK 
       rcases List.mem_cons.1 hy with hy | hy
       · subst hy; exact hny
       · exfalso
-        exact kkey_ne_of_klt S b y hsb (hs2 y (by simp [hy])) (hc2'.1 y hy) (by rw [← hab, hky])
-    have ih := canon_ext S hasym t1 t2 hc1'.2 hc2'.2 (fun x hx => hs1 x (by simp [hx])) (fun y hy => hs2 y (by simp [hy]))
+        exact kkey_ne_of_klt S b y hsb (hs2 y (by simp [hy])).1 (hc2'.1 y hy) (by rw [← hab, hky])
+    have ih := canon_ext S P hasym t1 t2 hc1'.2 hc2'.2 (fun x hx => hs1 x (by simp [hx])) (fun y hy => hs2 y (by simp [hy]))
       (by
         intro x hx
         obtain ⟨y, hy, hky, hny⟩ := h1 x (by simp [hx])
         rcases List.mem_cons.1 hy with hy | hy
         · subst hy
           exfalso
-          exact kkey_ne_of_klt S a x hsa (hs1 x (by simp [hx])) (hc1'.1 x hx) (by rw [hab, hky])
+          exact kkey_ne_of_klt S a x hsa (hs1 x (by simp [hx])).1 (hc1'.1 x hx) (by rw [hab, hky])
         · exact ⟨y, hy, hky, hny⟩)
       (by
         intro y hy
@@ -283,7 +284,7 @@ theorem canon_ext (S : Schema) (hasym : ∀ k1 k2, kltK S k1 k2 = true → kltK 
         rcases List.mem_cons.1 hx with hx | hx
         · subst hx
           exfalso
-          exact kkey_ne_of_klt S b y hsb (hs2 y (by simp [hy])) (hc2'.1 y hy) (by rw [← hab, hkx])
+          exact kkey_ne_of_klt S b y hsb (hs2 y (by simp [hy])).1 (hc2'.1 y hy) (by rw [← hab, hkx])
         · exact ⟨x, hx, hkx⟩)
     simp [normL, hnab, ih]
 
